@@ -296,13 +296,11 @@ pub(crate) fn months_between(
 
     let months_between = years_between * 12 + first_month as i32 - second_month as i32;
 
-    let extra_month = if months_between == 0 {
-        0
-    } else if first_year > second_year
+    let extra_month = if months_between > 0
         && (first_day < second_day || (first_day == second_day && first_nanos < second_nanos))
     {
         -1
-    } else if first_year < second_year
+    } else if months_between < 0
         && (first_day > second_day || (first_day == second_day && first_nanos > second_nanos))
     {
         1
